@@ -60,6 +60,16 @@ CandOK(ev) ==
 (***************************************************************************)
 OnlyBreaks(ev, rule) == ~WellFormed(Cand(ev)) /\ WF(Cand(ev), {rule})
 
+(* FixedSizeListArray::try_new_with_length compares values.len() with         *)
+(* `len * size` computed with a wrapping multiplication: a length of 2^63 or  *)
+(* more (size 2) wraps to the actual child length.  Identified as: the typed  *)
+(* fixed-size-list constructor, a length >= 2^30 (clamped), size > 0, no      *)
+(* bitmap, a well-formed child of the declared type.                          *)
+FslLenOverflow(ev) ==
+  /\ ev.e = "typed" /\ ev.fam = "fsl" /\ ev.d.t.k = "fsl"
+  /\ ev.d.len >= Huge /\ ev.d.t.size > 0 /\ ~ev.d.lo_ovf /\ ~ev.d.nulls.present
+  /\ Len(ev.d.bufs) = 0 /\ KidTypesOK(ev.d) /\ Len(ev.d.kids) = 1 /\ WellFormed(ev.d.kids[1])
+
 KF(ev) ==
   IF ~ev.accepted THEN ""
   ELSE IF ev.cls = "data" /\ OnlyBreaks(ev, "union-ids")     THEN "C09-union-ids"
@@ -67,6 +77,7 @@ KF(ev) ==
   ELSE IF ev.cls = "data" /\ OnlyBreaks(ev, "fsl-offset")    THEN "C09-fsl-offset"
   ELSE IF ev.cls = "data" /\ OnlyBreaks(ev, "struct-offset") THEN "C09-struct-offset"
   ELSE IF ev.e = "typed" /\ ev.fam = "union" /\ OnlyBreaks(ev, "union-kid-types") THEN "C09-union-kid-types"
+  ELSE IF FslLenOverflow(ev) THEN "C09-fsl-len-overflow"
   ELSE ""
 
 (* report only: rejected although well-formed (constructors may be stricter); *)
